@@ -62,7 +62,13 @@ func init() {
 
 func libNoop(x *Exec, n *ast.CallExpr, recv *Val, recvExpr ast.Expr, st *State, env *Env) Val {
 	if recvExpr != nil && !isStderr(recvExpr) {
-		panic(unsupported("(*os.File).WriteString on something other than os.Stderr"))
+		// a file opened by the function itself: not a modelled writer; the call returns an arbitrary (n, err) and touches
+		// nothing the contracts can see
+		x.c.notes["(*os.File).WriteString on a file opened by the function: arbitrary result, no ghost state (file contents are not modelled)"] = true
+		for _, a := range n.Args {
+			x.evalQuiet(a, st, env)
+		}
+		return Val{Tuple: []Val{{T: x.c.freshConst("nwritten", "Int"), Ty: tInt}, {T: x.c.freshConst("werr", sortErr), Ty: tError}}}
 	}
 	x.c.notes["writes to os.Stderr treated as no-ops"] = true
 	for _, a := range n.Args {
@@ -102,7 +108,10 @@ func libFprint(x *Exec, n *ast.CallExpr, recv *Val, recvExpr ast.Expr, st *State
 		}
 		return Val{Tuple: []Val{{T: "0", Ty: tInt}, {T: "err.nil", Ty: tError}}}
 	}
-	panic(unsupported("fmt.Fprint* to a writer other than os.Stderr"))
+	if name := calleeOf(n, env.info).Name(); name == "Fprint" || name == "Fprintln" {
+		return libFprintW(x, n, recv, recvExpr, st, env)
+	}
+	panic(unsupported("fmt.Fprintf to a writer other than os.Stderr"))
 }
 
 func libNewErr(x *Exec, n *ast.CallExpr, recv *Val, recvExpr ast.Expr, st *State, env *Env) Val {
@@ -642,4 +651,40 @@ func libSortSort(x *Exec, n *ast.CallExpr, recv *Val, recvExpr ast.Expr, st *Sta
 	x.lastPerm = [2]string{p, q}
 	x.lastLess = nil
 	return Val{}
+}
+
+// fmt.Fprint(w, s) / fmt.Fprintln(w, s) with exactly one string operand: one Write of s (plus "\n" for Fprintln) on w.
+func libFprintW(x *Exec, n *ast.CallExpr, recv *Val, recvExpr ast.Expr, st *State, env *Env) Val {
+	c := x.c
+	if len(n.Args) != 2 {
+		panic(unsupported("fmt.Fprint/Fprintln with other than one operand"))
+	}
+	w := x.eval(n.Args[0], st, env)
+	sv := x.eval(n.Args[1], st, env)
+	if sv.Ty == nil {
+		sv = x.materialize(sv, tString)
+	}
+	if !isString(sv.Ty) {
+		panic(unsupported("fmt.Fprint/Fprintln of a non-string operand"))
+	}
+	txt := sv.T
+	if calleeOf(n, env.info).Name() == "Fprintln" {
+		txt = app("gs.cat", sv.T, c.strLit("\n"))
+	}
+	nres := c.freshConst("nwritten", "Int")
+	e := c.freshConst("werr", sortErr)
+	fk := "failed:" + w.T
+	cur, ok := st.gh[fk]
+	if !ok {
+		panic(unsupported("fmt.Fprint on a writer without ghost state"))
+	}
+	st.gh[fk] = Val{T: c.define("failed", "Bool", or(cur.T, not(eq(e, "err.nil")))), Ty: tBool}
+	if lg, ok := st.gh["written:"+w.T]; ok {
+		sq := *lg.Seq
+		sq.Arr = c.define("wlog", "(Array Int Str)", app("store", lg.Seq.Arr, lg.Seq.N, txt))
+		sq.N = c.define("wlog.n", "Int", add(lg.Seq.N, "1"))
+		st.gh["written:"+w.T] = Val{Seq: &sq, Ty: lg.Ty}
+	}
+	c.trusted["fmt.Fprint/Fprintln(w, s): one Write of s (+ newline) on w; returns an arbitrary (n, err); failed(w) set iff err != nil"] = true
+	return Val{Tuple: []Val{{T: nres, Ty: tInt}, {T: e, Ty: tError}}}
 }
